@@ -39,7 +39,9 @@ def scan(repo):
                     continue
                 n += 1
                 nm = _name(a)
-                if nm is None:
+                if nm is None or nm in ('self', 'cls'):
+                    # (`other._helper(self)`: the receiver is not the
+                    # argument)
                     continue
                 nm = nm.lstrip('_')
                 if nm != p.lstrip('_') and nm in params:
